@@ -5,6 +5,8 @@
 #include <universal/number/integer/integer.hpp>
 #include <universal/number/areal/areal.hpp>
 #include <universal/number/cfloat/cfloat.hpp>
+#include <universal/number/fixpnt/fixpnt.hpp>
+#include <universal/number/qd/qd.hpp>
 #include <fcntl.h>
 #include <sys/wait.h>
 #include <unistd.h>
@@ -34,6 +36,8 @@ int main() {
 	probe("integer32.div.maxneg_by_minus1", [&] { integer<32, uint32_t> a, b; a.setbits(0x80000000u); b = (int)m1; a /= b; volatile long long r = (long long)a; (void)r; });
 	probe("integer64.rem.maxneg_by_minus1", [&] { integer<64, uint64_t> a, b; a.setbits(0x8000000000000000ull); b = (int)m1; a %= b; volatile long long r = (long long)a; (void)r; });
 	probe("areal.to_native.es8.shift", [&] { areal<16, 8, uint16_t> a; a.setbits(0x0080); volatile double d = double(a); (void)d; });
+	probe("fixpnt.from_int_min.negation_overflow", [&] { volatile int im = INT_MIN; fixpnt<40, 4, Modulo, uint8_t> f; f = (int)im; volatile double d = double(f); (void)d; });
+	probe("qd.from_int64_max.cast_overflow", [&] { volatile long long big = LLONG_MAX; qd q((long long)big); volatile double d = q[0]; (void)d; });
 	// controls: must be clean
 	probe("control.posit.add", [&] { posit<16, 1> a(1.5), b(2.25); a += b; volatile uint64_t r = a.bits(); (void)r; });
 	probe("control.integer.div", [&] { integer<32, uint32_t> a(100), b(7); a /= b; volatile long long r = (long long)a; (void)r; });
